@@ -153,7 +153,7 @@ def check_shape_cases(L, drv, FAM, items, stats, preds):
         if real["res"] == "ERR":
             stats["impl_err"] += 1
         # (1) the trace-time branch and constants
-        if real["term"] != "TRACE-ERR" and m_term != "-" and real["term"] != m_term:
+        if in_domain and real["term"] != "TRACE-ERR" and m_term != "-" and real["term"] != m_term:
             problems.append(("tie-term", name, case, f"real term {real['term']} ; model term {m_term}"))
         # (3) spec = PyTorch
         if s_res != tor["res"]:
